@@ -563,6 +563,10 @@ func (t *Transport) DisableHTTP3() {
 	t.altSvcJar = nil
 	t.pendingAltSvcs = nil
 	t.t3 = nil
+	if t.forceHttpVersion == h3 {
+		// HTTP/3 can no longer be forced once its round tripper is gone.
+		t.forceHttpVersion = ""
+	}
 }
 
 func (t *Transport) EnableHTTP3() {
